@@ -480,6 +480,16 @@ def register_numpy():
                 data = hash_buffer_hex(x.copy().ravel(order="C").view("i1"))
         return (data, x.dtype, x.shape)
 
+    @normalize_token.register(np.ma.masked_array)
+    def normalize_masked_array(x):
+        # Registered here (dask.array.ma registers the same) so that masked
+        # arrays also tokenize when dask.array has not been imported: the
+        # normaliser for plain arrays cannot view a masked array as bytes.
+        data = normalize_token(x.data)
+        mask = normalize_token(x.mask)
+        fill_value = normalize_token(x.fill_value)
+        return (data, mask, fill_value)
+
     @normalize_token.register(np.memmap)
     def normalize_mmap(mm):
         # The bytes alone do not tell how they are read: the same file mapped
